@@ -294,6 +294,11 @@ fn gen_fb(rng: &mut Rng, n: &mut Names) -> Decl {
     if rng.chance(1, 2) {
         text.push_str("  VAR_OUTPUT\n    o1 : INT;\n  END_VAR\n");
     }
+    if rng.chance(1, 15) {
+        // a constant table: legal text that the analyzer (today) answers with "not implemented" —
+        // a declaration that fails on its own and happens to stop a rule in mid-walk
+        text.push_str("  VAR CONSTANT\n    tbl : ARRAY [1..3] OF INT := [1, 2, 3];\n  END_VAR\n");
+    }
     let (vars, body) = pou_vars_and_body(rng, n, false, &name);
     text.push_str(&vars);
     text.push_str(&body);
@@ -396,6 +401,8 @@ pub const FAULT_KINDS: &[&str] = &[
     "syntax_var",
     "syntax_long_string",
     "unimplemented_capability",
+    "enum_dup_value_typed",
+    "function_cycle",
     "struct_dup_elem",
     "subrange_order",
     "enum_dup_value",
@@ -428,7 +435,7 @@ pub const FAULT_KINDS: &[&str] = &[
 
 /// Fault kinds whose faulty declaration(s) fail on their own (no other declaration needed).
 pub fn is_standalone(kind: &str) -> bool {
-    !matches!(kind, "enum_value_undefined" | "const_fb" | "global_not_external" | "invoke_undeclared_instance")
+    !matches!(kind, "enum_value_undefined" | "const_fb" | "global_not_external" | "invoke_undeclared_instance" | "function_cycle")
 }
 
 pub fn is_name_clash(kind: &str) -> bool {
@@ -503,6 +510,19 @@ pub fn gen_faulty(rng: &mut Rng, size: usize, kind: &str) -> World {
                     format!("TYPE\n  Pt{k} : STRUCT\n    px : INT;\n  END_STRUCT;\nEND_TYPE\nFUNCTION_BLOCK Fb{k}\n  VAR\n    arr : ARRAY [1..3] OF INT;\n    p : Pt{k};\n  END_VAR\n{body}\nEND_FUNCTION_BLOCK\n"),
                 ),
             );
+        }
+        "enum_dup_value_typed" => {
+            // the same value once with and once without the type prefix
+            push(&mut decls, decl("fault", &format!("En{k}"), format!("TYPE\n  En{k} : (En{k}#X{k}, Y{k}, {}) := Y{k};\nEND_TYPE\n", respell(rng, &format!("X{k}")))));
+        }
+        "function_cycle" => {
+            // two functions that invoke each other and a third that calls into the pair (whether a
+            // tool accepts recursive functions or not, it has to do so in every order)
+            let (a, b, c) = (format!("FnA{k}"), format!("FnB{k}"), format!("FnC{k}"));
+            let f = |name: &str, callee: &str| format!("FUNCTION {name} : INT\n  VAR_INPUT\n    a : INT;\n    b : INT;\n  END_VAR\n  {name} := {callee}(a := a, b := b) + 1;\nEND_FUNCTION\n");
+            push(&mut decls, decl("fault", &a, f(&a, &b)));
+            push(&mut decls, decl("fault", &b, f(&b, &a)));
+            push(&mut decls, decl("fault", &c, f(&c, &a)));
         }
         "struct_dup_elem" => push(
             &mut decls,
